@@ -1,6 +1,7 @@
 import KaVerif.Lemmas.EvalLemmas
 import KaVerif.Model.Compare
 import KaVerif.Model.Execute
+import KaVerif.Gen.Exec
 /-
   Helper lemmas for Props/Pipeline2.lean: further refinement lemmas between the unified pipeline
   model (`Model/Eval.lean`) and the per-topic fragments (Compare, Comb, Quantity, Elementary, Array,
@@ -1189,5 +1190,73 @@ theorem runProgram_expr (env : Env) (t : Ast) (h : ∀ x e, t ≠ .assign x e) (
 theorem embedC_not_stmts (e : Comb.CExp) : ∀ ss, embedC e ≠ .stmts ss := by
   intro ss
   cases e <;> simp only [embedC, intLit] <;> first | (split <;> simp) | simp
+
+/-! ### C06: the stages of one `execute` call, as the unified model runs them -/
+
+/-- the Python exception class behind an error class of the model -/
+def errClass : Err → String
+  | .divZero => "ZeroDivisionError" | .overflow => "OverflowError" | .runtime => "KaRuntimeError"
+  | .noMatch => "NoMatchingFunctionSignatureError" | .unknownFn => "UnknownFunctionError"
+  | .unknownKw => "UnknownKeywordError" | .badKw => "BadTypeKeywordError"
+  | .incompatible => "IncompatibleQuantitiesError" | .funArg => "FunctionArgError"
+  | .invalidParam => "InvalidParameterException" | .eval => "EvalError"
+  | .py c => c | .diverges => "(does not return)"
+
+/-- the classes Ka's own code raises on purpose while evaluating a tree, plus the two host classes
+    `eval_parse_tree` converts -/
+def ownClasses : List String :=
+  ["EvalError", "KaRuntimeError", "UnknownFunctionError", "UnknownKeywordError", "BadTypeKeywordError",
+   "InvalidParameterException", "NoMatchingFunctionSignatureError", "IncompatibleQuantitiesError",
+   "FunctionArgError", "ZeroDivisionError", "OverflowError"]
+
+/-- every error class of the model except a foreign host exception / non-termination is one of those -/
+theorem errClass_own (e : Err) (h : (match e with | .py _ | .diverges => false | _ => true) = true) :
+    errClass e ∈ ownClasses := by
+  cases e <;> first | (simp at h; done) | decide
+
+def lexClass : Lexer.LexErr → String
+  | .unknownToken _ => "UnknownTokenError" | .badNumber _ => "BadNumberError"
+  | .unclosedString _ => "UnclosedStringError" | .unclosedInstant _ => "UnclosedInstantError"
+  | .outOfFuel => "(model bound)"
+
+/-- evaluation and display of a parse tree as stages of `Exec.execute` -/
+def treeStages (env : Env) (t : Ast) : Exec.Stages :=
+  match runProgram env t with
+  | (_, .error (.err e)) => ⟨none, none, some (errClass e), none⟩
+  | (_, .error _) => ⟨none, none, none, none⟩
+  | (_, .ok v) =>
+    match reduceResult v >>= displayText with
+    | .error (.err e) => ⟨none, none, none, some (errClass e)⟩
+    | _ => ⟨none, none, none, none⟩
+
+/-- the four stages of `execute(s, env)` in the unified model: which stage raises which class -/
+def stagesOf (env : Env) (s : List Char) : Exec.Stages :=
+  match Lexer.tokenise s with
+  | .error e => ⟨some (lexClass e), none, none, none⟩
+  | .ok toks =>
+    match parse toks with
+    | .error (.parsing _) => ⟨none, some "ParsingError", none, none⟩
+    | .error .overflow => ⟨none, some "OverflowError", none, none⟩
+    | .error .fuel => ⟨none, none, none, none⟩
+    | .ok t => treeStages env t
+
+/-- what an observer of `execute` sees of a modelled outcome: status, which streams carry text -/
+def observe : Outcome → Option Exec.Outcome
+  | .ok _ => some (.done 0 true false)
+  | .lexErr _ _ | .parseErr _ | .evalErr _ => some (.done 1 false true)
+  | .escaped c => some (.escaped c)
+  | .unmodelled _ => none
+
+open Gen.Exec in
+/-- **Table fact** (handler tables generated from the `ast` of interpret.py): the four lexical classes and
+    ParsingError are caught with status 1, OverflowError out of the parser is not caught, the own classes
+    are caught around evaluation (after `eval_parse_tree`'s conversion). -/
+theorem handler_table :
+    (∀ c ∈ ["UnknownTokenError", "BadNumberError", "UnclosedStringError", "UnclosedInstantError"],
+      Exec.handle lexCaught c = .done 1 false true) ∧
+    Exec.handle parseCaught "ParsingError" = .done 1 false true ∧
+    Exec.handle parseCaught "OverflowError" = .escaped "OverflowError" ∧
+    (∀ c ∈ ownClasses, Exec.handle evalCaught (Exec.convert evalConverted c) = .done 1 false true) := by
+  decide +kernel
 
 end KaVerif.Pipe2
